@@ -56,6 +56,9 @@ TDecOK(ev) ==
     [] OTHER ->
        /\ ~ev.panic
        /\ ev.readlen <= MaxConsume(in)                             \* at most 14 + declared, never more than the input holds
+       \* the two classifiers on ANY input: 8 bytes suffice, fewer are never a TTHeader / streaming frame
+       /\ ev.isth = (in.len >= 8 /\ U16(in, 5) = 4096)
+       /\ ev.isstreaming = (in.len >= 8 /\ U16(in, 5) = 4096 /\ (U16(in, 7) \div 2) % 2 = 1)
        /\ r.ok => /\ ev.ok
                   /\ SameParam(NormParam(ev.param), r.param)
                   /\ ev.hlen = r.hlen                              \* 14 + declared size
